@@ -39,7 +39,10 @@ func engineAnswer(cwd, dbPath, personal, rawQuery string, limitFlag int, platfor
 	saved := os.Stdout
 	os.Stdout = devNull
 	defer func() { os.Stdout = saved }()
-	pc, _ := wctx.NewAnalyzer().AnalyzeDirectory(cwd)
+	var pc *wctx.Context
+	if cwd != "" { // "" = the working directory cannot be determined: no project context
+		pc, _ = wctx.NewAnalyzer().AnalyzeDirectory(cwd)
+	}
 	db, err := recovery.NewDatabaseRecovery(recovery.DefaultRetryConfig()).LoadDatabaseWithFallback(dbPath, personal)
 	if err != nil || db == nil {
 		return nil, cleaned, true
@@ -274,11 +277,23 @@ func TestC17_Search(t *testing.T) {
 			}
 			args = append(args, "--")
 			args = append(args, argsQ...)
-			r := proc.Run(proc.Cmd{Path: proc.Wtf(), Args: args, Env: h.Env(env...), Dir: cwd, Timeout: 30 * time.Second, FSize: -1})
-			if r.Panicked() || r.Signaled || r.TimedOut || (r.ExitCode != 0 && r.ExitCode != 1) {
-				t.Fatalf("wtf %+q crashed (exit %d): %s %s", args, r.ExitCode, clip(r.Stdout), clip(r.Stderr))
+			var r proc.Result
+			ecwd := cwd
+			if rapid.IntRange(0, 9).Draw(t, "removed-cwd") == 0 {
+				// started from a working directory that has been removed meanwhile (a deleted checkout, a
+				// cleaned temp dir): there is no project context, everything else works as usual
+				gone := filepath.Join(dir, fmt.Sprintf("gone%d", s))
+				sh := []string{"-c", `d="$1"; shift; mkdir -p "$d" && cd "$d" && rmdir "$d" && exec "$@"`, "sh", gone, proc.Wtf()}
+				r = proc.Run(proc.Cmd{Path: "/bin/sh", Args: append(sh, args...), Env: h.Env(env...), Dir: dir, Timeout: 30 * time.Second, FSize: -1})
+				ecwd = ""
+				labels = append(labels, "removed-cwd")
+			} else {
+				r = proc.Run(proc.Cmd{Path: proc.Wtf(), Args: args, Env: h.Env(env...), Dir: cwd, Timeout: 30 * time.Second, FSize: -1})
 			}
-			want, cleaned, rejected := engineAnswer(cwd, dbp, h.Notebook(), strings.Join(argsQ, " "), limFlag, platforms, allP, noX)
+			if r.Panicked() || r.Signaled || r.TimedOut || (r.ExitCode != 0 && r.ExitCode != 1) {
+				t.Fatalf("wtf %+q crashed (exit %d, working directory %q): %s %s", args, r.ExitCode, ecwd, clip(r.Stdout), clip(r.Stderr))
+			}
+			want, cleaned, rejected := engineAnswer(ecwd, dbp, h.Notebook(), strings.Join(argsQ, " "), limFlag, platforms, allP, noX)
 			nowHist := histEntries(h.History())
 			ctx := fmt.Sprintf("argv=%+q cwd markers=%v db=%s", args, markers, dbKind)
 			if rejected {
